@@ -1213,6 +1213,11 @@ func (m *metadataAPI) ResumePartition(streamName string, id int32, recovered boo
 	}
 	// Update latest pause status change timestamp.
 	partition.pauseTimestamps.update()
+	// Also clear the protobuf value (used for snapshotting). The protobuf is
+	// shared with the replaced partition and was marked paused by Pause().
+	partition.mu.Lock()
+	partition.Paused = false
+	partition.mu.Unlock()
 
 	stream.SetPartition(id, partition)
 
